@@ -406,6 +406,7 @@ type heldPacket struct {
 	b       *pktgen.Built
 	label   string
 	validOK bool // the validator accepted it right after it was built
+	damaged bool // another check already found (and reported) that its wire was modified
 }
 
 func delayedVerify(cc *caseCtx, cur *pktgen.Built) {
@@ -416,7 +417,7 @@ func delayedVerify(cc *caseCtx, cur *pktgen.Built) {
 	prev := prevBuilt[si]
 	cc.held = &heldPacket{b: cur, label: cc.label}
 	prevBuilt[si] = cc.held
-	if prev == nil {
+	if prev == nil || prev.damaged {
 		return
 	}
 	cc.stat["delayed_verifications"]++
@@ -463,6 +464,9 @@ func rebuildFromName(cc *caseCtx, a *pktgen.Built) {
 		late := append([]byte(nil), a.Wire.Join()...)
 		extra := map[string]any{"then": "MakeInterest(name = " + src + " of this Interest, parameters a55a)"}
 		if !bytes.Equal(late, a.Bytes) {
+			if cc.held != nil {
+				cc.held.damaged = true // reported here: keep it out of the delayed verification
+			}
 			cc.viol("C12.digest", "an earlier Interest's wire changes when a second Interest is built from its "+src,
 				"the un-joined Wire of the first Interest joins to different bytes after MakeInterest was called with its "+src, extra)
 			return
